@@ -16,13 +16,14 @@ func init() {
 		ID: "C20",
 		Explanation: "Decided: (R1) the scheduler-cleanup step is in the kill chain, runs on termination and on restart, and Clear deletes every recorded job; (R2) the job key is own path + ':' + reference at schedule, the recorded key is the one scheduled, Cancel deletes the key recorded for that reference; the key table is touched only by the actor scheduler's own methods; " +
 			"(R3) a cron parse error returns the converted error and schedules nothing; Cancel of an unknown reference returns not-found without touching the job scheduler; (R4) the job function tells a SchedulerMessage carrying the caller's message through Tell/TellSelf (the mailbox) and the receiver runs its behaviour on exactly that message; " +
-			"(R5) an error from the underlying Schedule reaches the caller and the key is recorded only on success. (R6) the shared engine is constructed with neither blocking execution nor a worker limit: a job function that blocks (a Tell to an unreachable peer, C14.R1) delays no other actor's job. NOT decided: 'not before the delay', counts per interval, cancellation racing the firing instant (go-quartz internals + wall clock).",
+			"(R2, addition) an entry is removed from the reference→key table only together with the engine's deletion of a key taken from that table, or under an equality test of the entry recorded under the same reference — never keyed by the reference alone at some later time (a re-armed reference would lose its bookkeeping: Cancel not-found for a live job, the job outlives its actor); (R5) an error from the underlying Schedule reaches the caller and the key is recorded only on success. (R6) the shared engine is constructed with neither blocking execution nor a worker limit: a job function that blocks (a Tell to an unreachable peer, C14.R1) delays no other actor's job. (R7) the context the shared engine is started with is not the first result of a context.With* call whose cancel function the module calls and then waits (the stop routine cancels the system's derived context right after sending the graceful kill and then waits for the tree): actors the poison has not reached yet are still running and their jobs must keep firing. NOT decided: 'not before the delay', counts per interval, cancellation racing the firing instant (go-quartz internals + wall clock).",
 		Assumptions: []string{"go-quartz: ScheduleJob/DeleteJob are non-blocking and fallible; a deleted job does not fire (summary, not analysed)"},
 		Rules: []Rule{
 			{ID: "C20.R1", Min: 3, Desc: "jobs die with the actor", Fn: c20Die},
 			{ID: "C20.R2", Min: 4, Desc: "key discipline", Fn: c20Keys},
 			{ID: "C20.R3", Min: 2, Desc: "rejection schedules nothing", Fn: c20Reject},
 			{ID: "C20.R4", Min: 3, Desc: "delivery path carries the original message through the mailbox", Fn: c20Delivery},
+			{ID: "C20.R7", Min: 1, Desc: "the shared timer loop is not bound to a context the system cancels before its actors have terminated", Fn: c20TimerLoopOutlivesActors},
 			{ID: "C20.R6", Min: 1, Desc: "due jobs are dispatched without waiting for running ones (no blocking execution, no worker limit)", Fn: c20Dispatch},
 			{ID: "C20.R5", Min: 2, Desc: "scheduler errors are not dropped", Fn: c20Errors},
 		},
@@ -369,6 +370,90 @@ func c20Keys(p *Program, r *Report) {
 		}
 	}
 	r.Check(okW, "key table written only by the actor scheduler's methods", s.T.Obj().Pos(), "no function outside the actor scheduler inserts into, deletes from or replaces the reference→key table")
+	// an entry leaves the table only together with its job: the table is keyed by the caller's reference, and a reference can be
+	// re-armed as soon as its job left the engine's queue. A removal that is not tied to the job it was recorded for — keyed by
+	// the reference alone, run when a late delivery arrives — forgets the NEW job armed under the same reference: Cancel
+	// answers not-found for a live job, Clear / death / restart leave it running. Accepted: every path through the removal
+	// also deletes, in the engine, a key that comes from this table; or the removal is dominated by an (in)equality test of the
+	// entry looked up under the same reference (an identity / generation check).
+	for _, a := range p.fieldAccesses(map[*types.Var]bool{s.Keys: true}) {
+		if a.Kind != "delete" {
+			continue
+		}
+		root := a.Fn
+		for root.Parent() != nil {
+			root = root.Parent()
+		}
+		g := p.igx(root)
+		di, in := g.Idx[a.In]
+		if !in {
+			g = p.ig(a.Fn)
+			di, in = g.Idx[a.In]
+		}
+		if !in {
+			r.Undecided("removal from the key table in "+fnName(a.Fn), a.In.Pos(), "the removal is not a node of its function's graph")
+			continue
+		}
+		engineDel := map[int]bool{}
+		for i, nd := range g.Nodes {
+			if c := callOf(nd); c != nil && c.StaticCallee() != nil && c.StaticCallee().Name() == "DeleteJob" && len(c.Args) >= 2 {
+				fromTable := false
+				for _, v := range g.values(c.Args[1]) {
+					v = strip(v)
+					if ex, isEx := v.(*ssa.Extract); isEx {
+						switch t := ex.Tuple.(type) {
+						case *ssa.Lookup:
+							if f, _ := fieldLoad(t.X); f == s.Keys {
+								fromTable = true
+							}
+						case *ssa.Next:
+							if rg, isR := t.Iter.(*ssa.Range); isR {
+								if f, _ := fieldLoad(rg.X); f == s.Keys {
+									fromTable = true
+								}
+							}
+						}
+					}
+					if lk, isL := v.(*ssa.Lookup); isL {
+						if f, _ := fieldLoad(lk.X); f == s.Keys {
+							fromTable = true
+						}
+					}
+				}
+				if fromTable {
+					engineDel[i] = true
+				}
+			}
+		}
+		paired := len(engineDel) > 0 && (g.DominatedByNodes(di, engineDel) || !anyIn(g.Reach([]int{di}, engineDel, nil), g.Exits))
+		// identity test on the looked-up entry
+		ident := false
+		dc := a.In.(*ssa.Call)
+		idEdges := map[edge]bool{}
+		for _, ifi := range g.ifs() {
+			for _, oc := range []bool{true, false} {
+				f, ok := condFact(ifi.Cond, oc)
+				if !ok || f.Y == nil || (f.Op != token.EQL && f.Op != token.NEQ) {
+					continue
+				}
+				for _, side := range []ssa.Value{f.X, f.Y} {
+					v := strip(side)
+					if ex, isEx := v.(*ssa.Extract); isEx && ex.Index == 0 {
+						v = ex.Tuple
+					}
+					if lk, isL := v.(*ssa.Lookup); isL {
+						if fl, _ := fieldLoad(lk.X); fl == s.Keys && sameValue(g.res(lk.Index), g.res(dc.Call.Args[1])) && f.Op == token.EQL {
+							idEdges[g.branchEdge(ifi, oc)] = true
+						}
+					}
+				}
+			}
+		}
+		if len(idEdges) > 0 && g.DominatedByEdges(di, idEdges) {
+			ident = true
+		}
+		r.Check(paired || ident, "an entry leaves the key table only together with its job: "+fnName(a.Fn), a.In.Pos(), "every path through the removal also deletes in the engine a key taken from this table, or the removal is dominated by an equality test of the entry recorded under the same reference")
+	}
 }
 
 func c20Reject(p *Program, r *Report) {
